@@ -35,9 +35,29 @@ class BranchLits(SymVal):
         raise Outside(f'Branch.{name}')
     def sym_truth(self, it): return True
 
-def literal_nodes(logic):
+def literal_bases(logic):
+    "the kinds of sentence that are literals for the logic: atoms, predications, and the sentences the logic treats as opaque"
+    out = ['atom', 'pred']
+    if not logic.Meta.modal: out.append('opaque-modal')
+    if not logic.Meta.quantified: out.append('opaque-quantified')
+    return out
+
+def base_sentence(base):
+    from pytableaux.lang import Operator, Quantifier
+    from contracts.rules import Param, Body
+    if base == 'atom': return Atom('p')
+    if base == 'pred':
+        from checks.c01 import PredTerm
+        return PredTerm('F', (Param('const', 'a'),))
+    if base == 'opaque-modal': return STerm.Op(Operator.Necessity, Atom('q'))
+    if base == 'opaque-quantified':
+        x = Param('var', 'x')
+        return STerm('quant', Quantifier.Universal, x, Body('phi', x))
+    raise ValueError(base)
+
+def literal_nodes(logic, base='atom'):
     from pytableaux.proof import common as C
-    p = Atom('p')
+    p = base_sentence(base)
     w = WorldTok('w') if logic.Meta.modal else None
     sem = S.spec_of(logic.Meta.name)
     out = []
@@ -189,6 +209,37 @@ def work_logic(lname):
         ok = len(vs) == 1 and S.VAL.get(next(iter(vs))) in sats
         add(enum_ob(f'C05.{L}.read-value.[{label}]', ok, logic=L, literals=label, read=sorted(vs), satisfying=[S.NAME[v] for v in sats],
                     cex=dict(literals=label, read=sorted(vs), satisfying=[S.NAME[v] for v in sats])))
+    # the other kinds of literal (predications, sentences opaque to the logic): same closure relation, and the model builder reads a satisfying value
+    for base in literal_bases(logic):
+        if base == 'atom': continue
+        lits_b = literal_nodes(logic, base)
+        nm = f'C05.{L}.literal-kind.{base}'
+        try:
+            rel_b, errors_b = closes_relation(logic, lits_b, funcs)
+        except Outside as e:
+            results.append(Result(nm + '.same-closure', 'unknown', detail=f'outside subset: {e}')); continue
+        if errors_b:
+            results.append(Result(nm + '.same-closure', 'unknown', detail='; '.join(errors_b[:3]))); continue
+        diff = sorted(set(rel) ^ set(rel_b))
+        add(enum_ob(nm + '.same-closure', not diff, logic=L, literals=base, sentence=repr(base_sentence(base)),
+                    clause='the closure rules detect exactly the same pairs of literals whatever kind of literal the sentence is (atom, predication, opaque)',
+                    cex=dict(kind=base, sentence=repr(base_sentence(base)), pairs_differing=[[names[i], names[j], 'detected for atoms only' if (i, j) in rel else 'detected for this kind only'] for i, j in diff][:4])))
+        badv = []
+        for mask in range(1, 1 << n):
+            subset = [i for i in range(n) if mask >> i & 1]
+            if any((i, j) in rel_b for i in subset for j in subset if i != j): continue
+            sats = [v for v in sem.values if all(lit_sat(sem, lits_b[i][2], lits_b[i][3], v) for i in subset)]
+            label = ','.join(names[i] for i in subset)
+            try:
+                vals, err, store = read_values(logic, lits_b, subset, funcs)
+            except Outside as e:
+                badv = None; results.append(Result(nm + '.read-value', 'unknown', detail=f'outside subset: {e}')); break
+            if err is not None: badv.append(dict(literals=label, raises=err)); continue
+            vs = set(vals.values())
+            if not (len(vs) == 1 and S.VAL.get(next(iter(vs))) in sats): badv.append(dict(literals=label, read=sorted(vs), satisfying=[S.NAME[v] for v in sats]))
+        if badv is not None:
+            add(enum_ob(nm + '.read-value', not badv, logic=L, literals=base, cex=(badv[0] if badv else None), cex_all=badv[:8] or None,
+                        clause='on every open set of literals of this kind the model builder reads one value that satisfies the set'))
     # classical family: self-identity / non-existence literals on the real rules (ground)
     if len(sem.values) == 2:
         results += classical_literals(logic, funcs)
@@ -290,6 +341,8 @@ def replay(payload):
     L = meta.get('logic')
     lits = cex.get('literals') or meta.get('literals')
     if not L: return dict(reproduced=None, detail='no logic in payload')
+    if meta.get('literals') in ('pred', 'opaque-modal', 'opaque-quantified'):
+        return replay_kind(L, meta['literals'])
     if not lits and 'arriving' in cex: lits = f"{cex['present']},{cex['arriving']}"
     if not lits: return dict(reproduced=None, detail='no literal set in payload')
     logic = registry(L)
@@ -316,3 +369,33 @@ def replay(payload):
         read = f'exception {type(e).__name__}'
     bad = (closed and bool(sats)) or (not closed and not sats) or (not closed and read not in sats)
     return dict(reproduced=bool(bad), detail=f'{L}: literals {lits}: real closure fires={closed}; satisfying values (spec)={sats}; model builder reads {read}')
+
+
+def replay_kind(L, kind):
+    "every set of literal nodes over one real sentence of the given kind, on a real branch: closure vs satisfiability vs the value read"
+    from pytableaux.logics import registry
+    from pytableaux.proof import Tableau, sdwnode
+    from pytableaux.lang import Atomic, Operator, Quantifier, Predicate, Constant, Variable
+    logic = registry(L); sem = S.spec_of(L)
+    F = Predicate(0, 0, 1); x = Variable(0, 0)
+    p = {'pred': F(Constant(0, 0)), 'opaque-modal': Operator.Necessity(Atomic(0, 0)), 'opaque-quantified': Quantifier.Universal(x, F(x))}[kind]
+    w = 0 if logic.Meta.modal else None
+    many = len(sem.values) > 2
+    cands = [(neg, d) for neg in (False, True) for d in ((True, False) if many else (None,))]
+    out = []
+    for mask in range(1, 1 << len(cands)):
+        sub = [cands[i] for i in range(len(cands)) if mask >> i & 1]
+        tab = Tableau(logic); br = tab.branch()
+        for neg, d in sub: br.append(sdwnode(~p if neg else p, d, w))
+        closed = any(tab.rules.get(rc.__name__).target(br) for rc in logic.Rules.closure)
+        sats = [S.NAME[v] for v in sem.values if all(lit_sat(sem, n, d, v) for n, d in sub)]
+        label = ', '.join(('~' if n else '') + str(p) + ({True: ' [+]', False: ' [-]', None: ''}[d]) for n, d in sub)
+        if closed and sats: out.append(f'{{{label}}} closes although the value(s) {sats} satisfy it')
+        elif not closed and not sats: out.append(f'{{{label}}} stays open although no value satisfies it')
+        elif not closed:
+            try:
+                m = logic.Model(); m.read_branch(br); read = str(m.value_of(p, world=(w or 0)))
+            except Exception as e: read = f'exception {type(e).__name__}: {e}'
+            if read not in sats: out.append(f'{{{label}}} is open; the model builder reads {read}, satisfying values are {sats}')
+        if len(out) >= 3: break
+    return dict(reproduced=bool(out), detail=f'{L}, literal {p} ({kind}): ' + ('; '.join(out) or 'closure, satisfiability and the value read agree on every set'))
